@@ -432,7 +432,9 @@ def _eval_job(args) -> Tuple[str, Optional[str], int]:
                     "https://puzz.link/p?nurikabe/0/0/", "https://puzz.link/p?nurikabe/2/1/1", "https://puzz.link/p?nurikabe/2/1/--1",
                     "https://puzz.link/p?nurikabe/2/1/+-12", "https://puzz.link/p?nurikabe/2/1/-_1", "https://puzz.link/p?nurikabe/2/1/+ 12",
                     "http://pzv.jp/p.html?nurikabe/1/2/g0", "https://puzz.link/p?other/2/1/h", "https://puzz.link/p?nurikabe/-2/1/h",
-                    "https://puzz.link/p?nurikabe/2/1/h/extra", "ftp://x/p?nurikabe/2/1/h"]
+                    "https://puzz.link/p?nurikabe/2/1/h/extra", "ftp://x/p?nurikabe/2/1/h",
+                    "https://puzz.link/p?nurikabe/0/1/", "https://puzz.link/p?nurikabe/1/0/", "https://puzz.link/p?nurikabe/0/2/h",
+                    "https://puzz.link/p?nurikabe/2/0/h", "https://puzz.link/p?nurikabe/0/1/g", "https://puzz.link/p?nurikabe/1/0/g"]
             for u in urls:
                 for fn_, kw in (("deserialize_nurikabe", {}),):
                     n += 1
